@@ -14,7 +14,7 @@ RULE = (
     "rule-based state machine holding a pool of shared mutable Points and Vectors (lattice values) and of objects "
     "built from them: Segment / HalfLine from two Points or Point+Vector, Line from two Points, triangles from three "
     "shared Points, Parallelogram / Parallelepiped from a shared base Point and Vectors, tetrahedra from four shared "
-    "polygons, negations -p of pool polygons, edges handed out by polygon.segments(), plus free Planes and Lines. "
+    "polygons, prisms / bipyramids / pyramids with 7-9 faces, negations -p of pool polygons, edges handed out by polygon.segments(), plus free Planes and Lines. "
     "Rules: construct; mutate a shared argument in place (Point.move, p.x = v, "
     "p[i] = v, vec[i] = v, move of a shared polygon, move of any pool Segment / HalfLine / polygon); run one of the queries of the statement (intersection, in, "
     "distance, angle, parallel, orthogonal, ==, hash, repr, length, area, volume) on an ordered pair of pool "
@@ -221,6 +221,36 @@ class Executor(object):
                 self.add(e)
             o = self.guard("ConvexPolyhedron(shared polygons)", lambda: G.ConvexPolyhedron(tuple(f.obj for f in faces)))
             self.add(Entry("K", o, X.make_K(d), faces, label="ConvexPolyhedron(shared polygons)"))
+        elif name == "mkbody":
+            # bodies with more faces than a box: hexagonal prism, pentagonal bipyramid, octahedron, heptagonal pyramid
+            if len([e for e in self.objs if e.kind == "K"]) >= 3:
+                return
+            hexa = [(1, 0), (2, 1), (2, 2), (1, 3), (0, 2), (0, 1)]
+            penta = [(0, 0), (2, 0), (3, 1), (2, 3), (0, 2)]
+            hepta = [(1, 0), (2, 0), (3, 1), (3, 2), (2, 3), (1, 3), (0, 1)]
+            which = a[0] % 4
+            t = (F(a[1] % 5 - 2), F(a[2] % 5 - 2), F(a[1] % 3 - 1, 2))
+            if which == 0:
+                pts = [(F(x), F(y), F(0)) for x, y in hexa] + [(F(x) + 1, F(y), F(2)) for x, y in hexa]
+            elif which == 1:
+                pts = [(F(x), F(y), F(0)) for x, y in penta] + [(F(3, 2), F(1), F(2)), (F(1), F(1), F(-3, 2))]
+            elif which == 2:
+                pts = [(F(2), F(0), F(0)), (F(-2), F(0), F(0)), (F(0), F(2), F(0)), (F(0), F(-2), F(0)), (F(0), F(0), F(1)), (F(0), F(0), F(-3))]
+            else:
+                pts = [(F(x), F(y), F(0)) for x, y in hepta] + [(F(3, 2), F(3, 2), F(3))]
+            K = X.translate(X.make_K(pts), t)
+            o = self.guard("ConvexPolyhedron (prism / bipyramid)", lambda: B.build(K, float, a[2] % 4))
+            e_ = Entry("K", o, K, (), label="polyhedron with %d faces" % len(K[2]))
+            self.add(e_)
+            if e_ in self.objs:
+                # a burst of membership queries with every pool point: none may change the body (face order included)
+                for pe in self.pts:
+                    before = full_snap(o)
+                    got = self.guard("P in K", lambda: pe.obj in o)
+                    if full_snap(o) != before:
+                        raise Fail("in [P,K] changed an observable attribute of its second operand", {"before": repr(before)[:300], "after": repr(full_snap(o))[:300]}, {"query": "in", "a": pe.desc, "b": K, "pair": "P,K"})
+                    if bool(got) is not X.subset(pe.desc, K):
+                        raise Fail("P in K wrong on a pool body", {"point": pe.desc}, {"query": "in", "a": pe.desc, "b": K, "pair": "P,K"})
         elif name == "mkneg":
             # -polygon is a polygon in its own right: it must own its data like any other (a later move of the
             # original, or of the negation, must leave the other one where it is)
@@ -525,6 +555,7 @@ def machine(ctx):
         "mut_polymove": (io, st.integers(0, len(MOVES) - 1)),
         "mut_objmove": (io, st.integers(0, len(MOVES) - 1)),
         "mkneg": (io,),
+        "mkbody": (io, io, io),
         "mksub": (io, io),
         "query": (st.integers(0, 9), io, io),
         "query2": (st.integers(0, 9), io, io),
